@@ -27,7 +27,8 @@ ASSUMPTIONS = [
     "singular values are pairwise separated by a factor >= 1.5 and none lies within a factor 2 of the rcond threshold "
     "(otherwise 'the kept set' is not well defined in floating point)",
     "finite-difference steps of 1e-4..1e-6 on O(1) functions; tolerances: lstsq 1e-9 relative, one-step residual 1e-6 "
-    "relative, view Jacobian 2e-4 of the largest entry",
+    "relative, view Jacobian: 4 x the forward-difference truncation bound computed from the family's second derivatives "
+    "(+ 1e-6 relative)",
 ]
 REQUIRED_CLASSES = ["lstsq:tall", "lstsq:wide", "lstsq:square", "lstsq:rank-deficient", "lstsq:dropped-by-rcond",
                     "lstsq:dropped-by-cutoff", "lstsq:rcond=0", "lstsq:settings-at-both-places", "step:square", "step:tall", "step:wide", "step:broyden",
@@ -304,10 +305,10 @@ def exec_view(ctx, spec):
             if jac.shape != wj.shape:
                 fail = Failure("C16:view-jacobian-shape", dict(rendered, view=tag, got=list(jac.shape), expected=list(wj.shape)))
                 break
-            tol = 2e-4 * (float(np.max(np.abs(wj))) + 1.0)
+            tol = fd_tolerance(spec, e0, wt, wv, dnat, scalar, wj)
             if np.any(np.abs(jac - wj) > tol):
                 fail = Failure("C16:view-jacobian-differs", dict(rendered, view=tag, max_error=float(np.max(np.abs(jac - wj))),
-                                                                 tolerance=tol, got=jac.tolist(), expected=wj.tolist()))
+                                                                 tolerance=np.asarray(tol).tolist(), got=jac.tolist(), expected=wj.tolist()))
                 break
         if fail:
             break
@@ -315,6 +316,27 @@ def exec_view(ctx, spec):
         fail = view_reuse(b, spec, rendered, classes)
     ctx.stats.case(rendered, asym or wts, classes)
     return fail
+
+
+def fd_tolerance(spec, e0, wt, wv, dnat, scalar, want_jac):
+    """forward-difference truncation bound for the Jacobian of a view, from the family's second derivatives:
+    |error_ij| <= 0.5 * step_j * w_t,i * w_v,j * max|d2f_i/dx_j^2| * dnat_j   (vector view), and for the scalar view
+    2 * sum_i |e_i| * that.  A factor 4 plus a small relative term covers rounding."""
+    A, B, _ = OF.coefficients(spec)
+    fam = spec["family"]
+    if fam == "lin":
+        d2 = np.zeros_like(A)
+    elif fam == "quad":
+        d2 = 2.0 * np.abs(B)
+    else:
+        d2 = A * A          # |d2/dx_j^2 sin(A x)| <= A_ij^2
+    steps = np.array(spec["steps"], dtype=float)
+    err = 0.5 * steps[None, :] * wt[:, None] * wv[None, :] * d2 * dnat[None, :]
+    if scalar:
+        bound = 2.0 * np.abs(e0) @ err
+    else:
+        bound = err
+    return 4.0 * bound + 1e-6 * (np.abs(want_jac) + 1.0)
 
 
 def view_reuse(b, spec, rendered, classes):
@@ -349,7 +371,7 @@ def view_reuse(b, spec, rendered, classes):
                 want_jac = 2 * e0 @ J if scalar else J
                 val = view(xs)
                 jac = np.asarray(view.get_jacobian(xs), dtype=float)
-                tol = 2e-4 * (float(np.max(np.abs(want_jac))) + 1.0)
+                tol = fd_tolerance(spec, e0, wt, wv, dnat, scalar, np.asarray(want_jac))
                 if not np.allclose(val, want_val, rtol=1e-10, atol=1e-12):
                     return Failure("C16:reused-view-value-differs", dict(rendered, stage=stage, scalar=scalar))
                 if jac.shape != np.asarray(want_jac).shape or np.any(np.abs(jac - want_jac) > tol):
